@@ -542,7 +542,7 @@ def compare(ctx, obs, out):
 
 # ------------------------------------------------------------------------------------------------ event sequences on a consumer
 
-def consumer_events(ctx, model_cases):
+def consumer_events(ctx, model_cases, only=None):
     """random sequences of connect(ok/SSLError) / get_soap_client / stop_all on a real SdcConsumer with a scripted client"""
     e = env()
     rng = ctx.subrng('events')
@@ -574,6 +574,8 @@ def consumer_events(ctx, model_cases):
     n = ctx.n(150, 1500)
     fixed = [('enforced', ['c1', 's', 'c0', 'g0']), ('enforced', ['c1', 'g1', 's', 'c0', 's', 'cx', 'c0', 'g2']),
              ('enforced', ['s', 'c0']), ('optional', ['c1', 's', 'c0', 'g0']), ('optional', ['c0', 's', 'c1'])]
+    if only is not None:
+        fixed, n = only, 0
     for k in range(n + len(fixed)):
         mode = rng.choice(MODES)
         script = None
@@ -769,7 +771,13 @@ def replay(ctx, obj):
         print(sorted({(a[0], a[1], a[3]) for a in obs['addresses']}))
         oracle(ctx, obs)
     elif 'consumer-events' in case:
-        print('event sequences are re-generated by the run; use the configuration replays')
+        mc = []
+        consumer_events(ctx, mc, only=[(case['consumer-events'][0], case['consumer-events'][1:])])
+        print(mc[0][1], '->', mc[0][2])
+    elif 'delivery' in case:
+        obs = run_delivery(tuple(case['delivery']))
+        print({k: obs.get(k) for k in ('connections', 'tls_hello', 'plaintext', 'error')})
+        check_delivery(ctx, [obs], [None])
     elif 'verify' in case:
         server, ca = case['verify']
         c = mk_container(ca)
